@@ -232,6 +232,16 @@ func (s *Sim) logLine(line string) {
 	}
 }
 
+// Note appends a line to the log that is not part of the run's fingerprint: details that depend on
+// choices the runtime makes (e.g. revisions assigned in Go map iteration order inside the code under test).
+func (s *Sim) Note(format string, args ...any) {
+	s.mu.Lock()
+	if len(s.Log) < s.logLimit {
+		s.Log = append(s.Log, "    note: "+fmt.Sprintf(format, args...))
+	}
+	s.mu.Unlock()
+}
+
 // Seq returns the current global event sequence number and advances it.
 func (s *Sim) Seq() uint64 {
 	s.mu.Lock()
